@@ -25,6 +25,7 @@ package main
 // SPEC VERDICTS  determinism:routes-differ:live-vs-follower | live-vs-follower-restart |
 //
 //	live-vs-follower-snapshot | live-vs-elected-leader-replay | leader-live-vs-log-replay
+//	snapshot:install-hangs   SendSnapshot does not return / the follower is wedged after a damaged stream
 //	determinism:version-counter-ahead-after-failed-batch   a batch accepted into the log by the real leader
 //	                   fails at apply after one of its puts took a version id (C13's subject): the next put
 //	                   gets a version id that no replica re-created from the stored state would assign
@@ -53,7 +54,7 @@ import (
 	"verif/harness/internal/hx"
 )
 
-const c06StepTimeout = 20 * time.Second
+const c06StepTimeout = 10 * time.Second
 
 var c06SrvConfig = server.Config{NotificationsRetentionTime: time.Hour}
 
@@ -400,7 +401,10 @@ func c06RouteFollowerSnapshot(o *hx.Out, rng *hx.Rng, lg *c06Log) {
 		how = fmt.Sprintf("follower first applied entries 0..#%d itself; ", own-1) + how
 	}
 	st := &c06SnapStub{c06StreamBase: c06StreamBase{context.Background()}, chunks: chunks, resp: make(chan *proto.SnapshotResponse, 1)}
-	if err := f.fc.SendSnapshot(st); err != nil {
+	if err, returned := c06SendSnapshot(f.fc, st); !returned {
+		o.Violation("snapshot:install-hangs", fmt.Sprintf("SendSnapshot did not return within %v; %s; %s", c06StepTimeout, how, lg.text()))
+		return // the controller is wedged: it cannot be closed
+	} else if err != nil {
 		o.Violation("determinism:routes-differ:live-vs-follower-snapshot", fmt.Sprintf("SendSnapshot failed: %v; %s; %s", err, how, lg.text()))
 		f.stop()
 		return
@@ -427,6 +431,73 @@ func c06RouteFollowerSnapshot(o *hx.Out, rng *hx.Rng, lg *c06Log) {
 	c06CtlViol(o, "follower-snapshot", lg, how, n.dump())
 	o.Count("route:follower-snapshot")
 	o.Count(fmt.Sprintf("follower-snapshot:notifications=%v", lg.en))
+}
+
+func c06SendSnapshot(fc server.FollowerController, st *c06SnapStub) (err error, returned bool) {
+	done := make(chan error, 1)
+	go func() { done <- fc.SendSnapshot(st) }()
+	select {
+	case err = <-done:
+		return err, true
+	case <-time.After(c06StepTimeout):
+		return nil, false
+	}
+}
+
+// A damaged snapshot stream (a chunk lost in the middle of a file) must be refused with an error, and the
+// follower must stay usable (O-42: the error path of readSnapshotStream locked the mutex its caller holds).
+func c06DamagedSnapshotProbe(o *hx.Out) {
+	src := newEnv(2, true)
+	defer src.close()
+	hx.Must(src.db.UpdateTerm(1, kv.TermOptions{NotificationsEnabled: true}))
+	for i := 0; i < 5; i++ {
+		c06Apply(src.db, &wreq{offset: int64(i), ts: uint64(100 + i), puts: []putOp{{key: fmt.Sprintf("k%d", i), value: []byte("value")}}})
+	}
+	var chunks []*proto.SnapshotChunk
+	withChunkSize(64, func() {
+		snap, err := src.db.Snapshot()
+		hx.Must(err)
+		for ; snap.Valid(); snap.Next() {
+			ch, err := snap.Chunk()
+			hx.Must(err)
+			chunks = append(chunks, &proto.SnapshotChunk{Term: 1, Name: ch.Name(), ChunkIndex: ch.Index(), ChunkCount: ch.TotalCount(), Content: append([]byte(nil), ch.Content()...)})
+		}
+		hx.Must(snap.Close())
+	})
+	// drop the last chunk of the first file that has several: the next file's first chunk finds a file open
+	for i, c := range chunks {
+		if c.ChunkCount > 1 && c.ChunkIndex == c.ChunkCount-1 && i+1 < len(chunks) {
+			chunks = append(chunks[:i], chunks[i+1:]...)
+			break
+		}
+	}
+	n := newC06Node("dmg", 2)
+	f := c06StartFollower(n, 1, true, true)
+	st := &c06SnapStub{c06StreamBase: c06StreamBase{context.Background()}, chunks: chunks, resp: make(chan *proto.SnapshotResponse, 1)}
+	err, returned := c06SendSnapshot(f.fc, st)
+	switch {
+	case !returned:
+		o.Violation("snapshot:install-hangs", "a snapshot stream with one chunk missing in the middle of a file: SendSnapshot never returns (the follower controller is wedged)")
+		o.Count("damaged-snapshot:hang")
+		return // cannot be closed
+	case err == nil:
+		o.Violation("snapshot:chunk-reassembly-differs", "a snapshot stream with one chunk missing in the middle of a file was installed without an error")
+	default:
+		o.Count("damaged-snapshot:refused")
+	}
+	// still usable
+	done := make(chan error, 1)
+	go func() {
+		_, err := f.fc.NewTerm(&proto.NewTermRequest{Namespace: n.ns, Shard: n.shard, Term: 2, Options: &proto.NewTermOptions{EnableNotifications: true}})
+		done <- err
+	}()
+	select {
+	case <-done:
+		f.stop()
+		n.close()
+	case <-time.After(c06StepTimeout):
+		o.Violation("snapshot:install-hangs", "after a refused snapshot the follower controller does not answer NewTerm")
+	}
 }
 
 // ---------------------------------------------------------------- route L: the real leader, then its own log replayed
@@ -679,6 +750,7 @@ func c06CtlMain(o *hx.Out, f hx.Flags) {
 	t0 := time.Now()
 	rng := hx.NewRng(f.Seed ^ 0xc06c)
 	c06LeaderWitness(o)
+	c06DamagedSnapshotProbe(o)
 	for c := 0; c < f.N; c++ {
 		crng := rng.Fork()
 		lg := c06GenLog(o, crng, fmt.Sprintf("c06ctl#%d", c), 1+crng.Intn(20))
